@@ -66,9 +66,25 @@ Fixpoint pairs {A} (l : list A) : list (A * A) :=
 Definition mem_pt (p : pt) (l : list pt) : bool := existsb (pt_eqb p) l.
 Fixpoint nodup_pts (l : list pt) : list pt :=
   match l with [] => [] | a :: t => if mem_pt a t then nodup_pts t else a :: nodup_pts t end.
+(* centroids of consecutive vertex triples of a sequence (inside the ears of a ring) *)
+Fixpoint ear_points (l : seq) : list hpt :=
+  match l with
+  | a :: (b :: c :: _) as t => (fst a + fst b + fst c, snd a + snd b + snd c, 3) :: ear_points t
+  | _ => []
+  end.
+Fixpoint seqs_of (g : geom) : list seq :=
+  match g with
+  | GPoint _ | GMPoint _ => []
+  | GLine l | GRing l => [l]
+  | GPoly s hs => s :: hs
+  | GMLine ls => ls
+  | GMPoly ps => flat_map poly_rings ps
+  | GColl gs => flat_map seqs_of gs
+  end.
 Definition witnesses (g r : geom) : list hpt :=
   let vs := nodup_pts (coords_of g ++ coords_of r) in
-  map hp vs ++ map (fun ab => mid (fst ab) (snd ab)) (pairs vs).
+  map hp vs ++ map (fun ab => mid (fst ab) (snd ab)) (pairs vs)
+  ++ flat_map ear_points (seqs_of g) ++ flat_map ear_points (seqs_of r).
 
 (* envelope *)
 Definition env_of (l : list pt) : option (Z * Z * Z * Z) :=
@@ -119,7 +135,7 @@ Fixpoint has_lower_dim (d : Z) (r : geom) : bool :=
   | GColl rs => existsb (has_lower_dim d) rs
   | _ => negb (is_empty r) && (dimension r <? d)
   end.
-Fixpoint top_dim (g : geom) : Z :=        (* dimension of the non-collection elements: uniform for Multi* and atoms *)
+Definition top_dim (g : geom) : Z :=        (* dimension of the non-collection elements: uniform for Multi* and atoms *)
   match g with GColl _ => -1 | _ => dimension g end.
 Definition c_keep (keep : bool) (g r : geom) : bool :=
   match g with
@@ -139,12 +155,6 @@ Definition f10_key (g : geom) : bool :=
   existsb (fun a => existsb (fun h => rings_apart h (fst a)) (snd a)) (polys_of g).
 
 (* the structure method keeps the collection structure: collections are checked element by element *)
-Fixpoint check_struct_elems (f : geom -> geom -> bool) (gs rs : list geom) : bool :=
-  match gs, rs with
-  | [], [] => true
-  | g :: gs', r :: rs' => f g r && check_struct_elems f gs' rs'
-  | _, _ => false
-  end.
 Fixpoint check_keep_tree (keep : bool) (g r : geom) : bool :=
   match g with
   | GColl gs => match r with
